@@ -297,7 +297,156 @@ def gen_cases(ctx, rng):
         cases.append(('kw', cname, tuple(sorted(picks))))
     for name, cname, cfg, expect in cross_cases():
         cases.append(('cross', name, cname))
+    cases += override_cases(ctx)
+    cases += special_float_cases()
     return cases, n_single
+
+
+# ------------------------------------------------------------------------------------------------
+# streams derived from what the classes themselves declare: default-name tables and numeric ranges
+# ------------------------------------------------------------------------------------------------
+MATH_CLASSES = ('FormulaGrader', 'NumericalGrader', 'MatrixGrader', 'IntegralGrader', 'SumGrader')
+
+
+def override_cases(ctx):
+    """every name of each class's OWN effective default tables (cls.default_functions / cls.default_variables, 'infty'
+    under allow_inf) used as a user function / user constant / variable / numbered variable, suppress_warnings off and on"""
+    T, _ = tables()
+    out = []
+    for cname in MATH_CLASSES:
+        cls = T[cname].cls
+        fnames = sorted(cls.default_functions)
+        vnames = sorted(cls.default_variables)
+        step = 1 if ctx['tier'] != 'quick' or ctx.get('escalate') else 3      # suppress_warnings=True: every 3rd name in quick
+        for i, n in enumerate(fnames):
+            out.append(('override', cname, 'user_functions', n, False, False))
+            if i % step == 0:
+                out.append(('override', cname, 'user_functions', n, True, False))
+        fields = ['user_constants'] + ([] if cname == 'NumericalGrader' else ['variables', 'numbered_vars'])
+        for n in vnames + ['infty']:
+            for field in fields:
+                for sup in (False, True):
+                    for inf in ((False, True) if cname in ('FormulaGrader', 'NumericalGrader') and n == 'infty' else (False,)):
+                        out.append(('override', cname, field, n, sup, inf))
+    return out
+
+
+def override_config(case):
+    _, cname, field, name, sup, inf = case
+
+    def f(x):
+        return x
+    value = {'user_functions': {name: f}, 'user_constants': {name: 1.5}, 'variables': [name], 'numbered_vars': [name]}[field]
+    cfg = {field: value}
+    if sup:
+        cfg['suppress_warnings'] = True
+    if inf:
+        cfg['allow_inf'] = True
+    return cfg
+
+
+SPECIAL_FLOATS = ['nan', 'npnan', 'inf', '-inf', '-0.0']
+
+
+def special_float(tag):
+    import numpy as np
+    return {'nan': float('nan'), 'npnan': np.float64('nan'), 'inf': float('inf'), '-inf': float('-inf'), '-0.0': -0.0}[tag]
+
+
+def schema_options(cls):
+    """option name -> voluptuous validator, read from the schema the class declares"""
+    from voluptuous import Schema
+    try:
+        sch = object.__new__(cls).schema_config
+    except Exception:       # noqa
+        return {}
+    d = sch.schema if isinstance(sch, Schema) else None
+    return {str(k): v for k, v in d.items()} if isinstance(d, dict) else {}
+
+
+def has_range(v, depth=0):
+    from voluptuous import Schema, Range
+    if depth > 6:
+        return False
+    if isinstance(v, Range):
+        return True
+    if hasattr(v, 'validators'):
+        return any(has_range(x, depth + 1) for x in v.validators)
+    if isinstance(v, Schema):
+        return has_range(v.schema, depth + 1)
+    return False
+
+
+def in_declared_domain(v, x):
+    """is the float x admitted by the declared validator v?  Independent reading of the declaration (types, Range
+    bounds with mathematical comparisons -- NaN is in no range --, NotIn, literals, Any/All); None = cannot tell"""
+    import inspect
+    from voluptuous import Schema, Range, NotIn, Any, All
+    if isinstance(v, Schema):
+        return in_declared_domain(v.schema, x)
+    if inspect.isclass(v):
+        return isinstance(x, v)
+    if isinstance(v, Range):
+        if x != x:
+            return False
+        lo = v.min is None or (x >= v.min if v.min_included else x > v.min)
+        hi = v.max is None or (x <= v.max if v.max_included else x < v.max)
+        return bool(lo and hi)
+    if isinstance(v, NotIn):
+        return not any(x == c for c in v.container)
+    if isinstance(v, Any):
+        rs = [in_declared_domain(a, x) for a in v.validators]
+        return True if any(r is True for r in rs) else (False if all(r is False for r in rs) else None)
+    if isinstance(v, All):
+        rs = [in_declared_domain(a, x) for a in v.validators]
+        return False if any(r is False for r in rs) else (True if all(r is True for r in rs) else None)
+    if v is None or isinstance(v, (bool, int, float, str)):
+        return bool(x == v)
+    if isinstance(v, (list, tuple, dict)):
+        return False
+    if getattr(v, '__name__', '') == 'PercentageString':
+        return False            # a float is not a percentage string
+    return None
+
+
+def special_float_cases():
+    """NaN (python and numpy), +-inf and -0.0 for EVERY option whose declared validator contains a Range"""
+    T, _ = tables()
+    out = []
+    for cname, table in sorted(T.items()):
+        vals = schema_options(table.cls)
+        for opt in sorted(table.options):
+            if opt in vals and has_range(vals[opt]):
+                for tag in SPECIAL_FLOATS:
+                    if in_declared_domain(vals[opt], special_float(tag)) is not None:
+                        out.append(('special', cname, opt, tag))
+        if 'answers' in table.options and grade_template(table) is not None:
+            for tag in SPECIAL_FLOATS:
+                for wrap in ('plain', 'tuple'):
+                    out.append(('special-grade', cname, tag, wrap))
+    return out
+
+
+def grade_template(table):
+    """first in-domain answers value of the class that contains an {'expect': ...} dictionary"""
+    def has(v):
+        if isinstance(v, dict):
+            return 'expect' in v
+        return isinstance(v, (list, tuple)) and any(has(x) for x in v)
+    for v in table.options['answers'].dom.good:
+        if has(v):
+            return v
+    return None
+
+
+def with_grade(v, x, done=None):
+    done = done if done is not None else [False]
+    if isinstance(v, dict) and 'expect' in v and not done[0]:
+        done[0] = True
+        return dict(v, grade_decimal=x)
+    if isinstance(v, (list, tuple)) and not done[0]:
+        return type(v)(with_grade(y, x, done) for y in v)
+    return v
 
 
 def resolve(case):
@@ -310,6 +459,24 @@ def resolve(case):
         cls, dom = POS[case[1]]
         v = (dom.good if case[2] == 'good' else dom.bad)[case[3]]
         return cls, v, None, case[2] == 'good', None
+    if case[0] == 'override':
+        table = T[case[1]]
+        cfg = dict(table.base, **override_config(case))
+        return table.cls, None, cfg, bool(table.rules(cfg, dict(doc_defaults(table), **cfg))), table
+    if case[0] == 'special':
+        table = T[case[1]]
+        x = special_float(case[3])
+        cfg = dict(table.base, **{case[2]: x})
+        ok = in_declared_domain(schema_options(table.cls)[case[2]], x)
+        return table.cls, None, cfg, bool(ok) and bool(table.rules(cfg, dict(doc_defaults(table), **cfg))), table
+    if case[0] == 'special-grade':
+        table = T[case[1]]
+        x = special_float(case[2])
+        a = with_grade(BH.struct_copy(grade_template(table)), x)
+        if case[3] == 'tuple' and not isinstance(a, tuple) and table.cls.__name__ != 'ListGrader':
+            a = (a,)
+        cfg = dict(table.base, answers=a)
+        return table.cls, None, cfg, bool(x == x and 0 <= x <= 1), table
     for name, cname, cfg, expect in cross_cases_cached():
         if name == case[1] and cname == case[2]:
             return T[cname].cls, None, cfg, expect, T[cname]
@@ -445,7 +612,7 @@ def check_case(case, res=None, witnesses=None):
         full = dict(doc_defaults(table), **cfg)
         for k, o in table.options.items():
             supplied = k in cfg
-            if supplied and k == 'answers' and (case[0] == 'cross' or 'entry_partial_credit' in cfg or 'entry_partial_msg' in cfg):
+            if supplied and k == 'answers' and (case[0] in ('cross', 'special-grade') or 'entry_partial_credit' in cfg or 'entry_partial_msg' in cfg):
                 continue        # the normal form of the answers depends on the subgraders / the comparer in use
             if o.expected is not None and k in conf:
                 want = o.expected(full)
@@ -703,6 +870,8 @@ def run(ctx):
     res.distribution.update({'cases': len(cases), 'single_option_deviations': n_single,
                              'multi_option_random': sum(1 for c in cases if c[0] == 'kw' and len(c[2]) > 1),
                              'cross_rule_corpus': sum(1 for c in cases if c[0] == 'cross'),
+                             'default_name_override_cases': sum(1 for c in cases if c[0] == 'override'),
+                             'special_float_cases': sum(1 for c in cases if c[0] in ('special', 'special-grade')),
                              'classes': len(tables()[0]) + 2})
     res.exhaustive = True
     run_correspondence(ctx, res, recs, w)
